@@ -189,6 +189,23 @@ def native_replay(harness, path):
     return res
 
 
+def native_search(harness, tries=400000):
+    exe = build_replay("dev")
+    if exe is None:
+        return None
+    for seed in (1, 2, 3):
+        p = subprocess.run([exe, harness, "--search", str(tries), str(seed)], stdout=subprocess.PIPE, stderr=subprocess.PIPE,
+                           text=True, env=dict(os.environ, RUST_BACKTRACE="0"))
+        line = p.stdout.strip().splitlines()[-1] if p.stdout.strip() else ""
+        try:
+            r = json.loads(line)
+        except Exception:
+            continue
+        if r.get("found"):
+            return r
+    return None
+
+
 def is_label(c, harness):
     """A harness-level labelled obligation (chk!/cov!), as opposed to a compiler-inserted check."""
     if not re.search(r"in function h_c\d+::", c["loc"]) and "proofs::" not in c["loc"]:
@@ -201,13 +218,24 @@ def is_label(c, harness):
 
 def confirm(out, prop, unit, slot, failing_descs):
     """Counterexample -> concrete values -> native replay.  Returns list of Finding / adds inconclusive."""
-    log("  [%s] counterexample candidate(s): %s -- extracting concrete values" % (unit.name, failing_descs))
-    r = run_kani(unit.name, slot, max(unit.timeout * 4, 1800), playback=True, nocover=True, extra=unit.extra_args)
-    plays = [p for p in parse_playback(r["text"]) if p["kind"] != "cover" and relevant(p["desc"], prop)
-             and "unwinding assertion" not in p["desc"]]
+    log("  [%s] counterexample candidate(s): %s -- looking for a concrete witness" % (unit.name, failing_descs))
+    # cheap first: the harness body itself searches natively (boundary-biased inputs) for a witness of what the solver
+    # has shown to exist; only if that fails is the (3-10x more expensive) trace extracted from CBMC
+    found = native_search(unit.name, tries=200000)
+    plays = []
+    r = {"log": "(native search)"}
+    if found and any(relevant(f, prop) for f in found.get("failed", [])):
+        lab = [f for f in found["failed"] if relevant(f, prop)][0]
+        desc = lab if lab != "panic" else ([d for d in failing_descs if any(d.startswith(p) for p in RUSTC_PANICS)] or failing_descs)[0]
+        plays = [{"kind": "assertion", "desc": desc, "vals": found["vals"]}]
+        log("  [%s] witness found natively after %d tries" % (unit.name, found.get("tries", -1)))
+    else:
+        r = run_kani(unit.name, slot, max(unit.timeout * 4, 1800), playback=True, nocover=True, extra=unit.extra_args)
+        plays = [p for p in parse_playback(r["text"]) if p["kind"] != "cover" and relevant(p["desc"], prop)
+                 and "unwinding assertion" not in p["desc"]]
     if not plays:
-        out.inconclusive.append("%s: solver reported a failing obligation %s but no concrete values could be "
-                                "extracted (log %s)" % (unit.name, failing_descs, r["log"]))
+        out.inconclusive.append("%s: solver reported a failing obligation %s but no concrete witness could be obtained "
+                                "(native search and trace extraction both failed; log %s)" % (unit.name, failing_descs, r["log"]))
         return
     seen = set()
     for pl in plays:
@@ -220,19 +248,26 @@ def confirm(out, prop, unit, slot, failing_descs):
         path = save_replay(prop, "%s--%s" % (unit.name, slug(pl["desc"])[:40]), payload)
         nat = native_replay(unit.name, path)
         reproduced = []
+        native_label = None
         for profile, v in nat.items():
             failed = v.get("failed", []) if isinstance(v, dict) else []
             hit = [f for f in failed if f == pl["desc"] or (f.startswith("panic") and any(
                 pl["desc"].startswith(p) for p in RUSTC_PANICS))]
+            if not hit and not (isinstance(v, dict) and v.get("assume_failed")):
+                # the same inputs violate a *different* labelled obligation of this property natively (e.g. the solver saw
+                # an entropy request where the native run sees two calls disagreeing): still a reproduced violation
+                hit = [f for f in failed if relevant(f, prop) and not f.startswith("panic")]
             if hit:
                 reproduced.append(profile)
+                native_label = native_label or hit[0]
         payload["native_replay"] = nat
         payload["reproduced_in"] = reproduced
         with open(path, "w") as fh:
             json.dump(payload, fh, indent=1)
         if reproduced:
+            what = pl["desc"] if native_label in (None, pl["desc"]) else "%s [natively: %s]" % (pl["desc"], native_label)
             out.findings.append(Finding(prop, key, "%s (harness %s; reproduced natively in %s profile)" % (
-                pl["desc"], unit.name, "+".join(reproduced)), path))
+                what, unit.name, "+".join(reproduced)), path))
         else:
             out.inconclusive.append("%s: counterexample for '%s' did not reproduce natively (%s) -- encoding/stub "
                                     "problem, not reported as a violation; replay file %s" % (
